@@ -16,7 +16,8 @@ for d in sorted(glob.glob('/verif/seeded/*')):
     rows.append(f"| {name} | {summ} | {caught} | {sig} |")
 seed="| seeded change | what was changed | caught by | first violation signature |\n|---|---|---|---|\n"+"\n".join(rows)
 n=len(rows); miss=sum(1 for r in rows if 'MISSED' in r)
-seed=f"{n} seeded changes are kept; {n-miss} are caught by the quick tier of their property's check"+(f", {miss} are not (see below)" if miss else "")+".\n\n"+seed
+thor=sum(1 for r in rows if ' thorough |' in r)
+seed=f"{n} seeded changes are kept; {n-miss-thor} are caught by the quick tier of their property's check"+(f", {thor} by the thorough tier only" if thor else "")+(f", {miss} are not (see below)" if miss else "")+".\n\n"+seed
 mut=""
 p='/verif/selftest/mutants_results.txt'
 if os.path.exists(p):
